@@ -112,6 +112,19 @@ type gcSess struct {
 
 var gcShapes = []string{"absent", "null", "ok", "undecodable", "wrongtype"}
 
+const gcMeta = `"_meta":{"io.modelcontextprotocol/protocolVersion":"2026-07-28","io.modelcontextprotocol/clientInfo":{"name":"verif","version":"1"},"io.modelcontextprotocol/clientCapabilities":{}}`
+
+// gcParamsModern: object params carry complete per-request metadata naming 2026-07-28; the other shapes cannot.
+func gcParamsModern(shape string) string {
+	switch shape {
+	case "ok":
+		return `,"params":{"text":"hi",` + gcMeta + `}`
+	case "undecodable":
+		return `,"params":{"text":5,` + gcMeta + `}`
+	}
+	return gcParams(shape)
+}
+
 func gcParams(shape string) string {
 	switch shape {
 	case "null":
@@ -129,12 +142,22 @@ func gcParams(shape string) string {
 // gcPost drives one POST through the handler; returns the status, the session id header and the JSON-RPC
 // messages of the body (application/json or text/event-stream). hung: the handler did not return at quiescence.
 func gcPost(h http.Handler, sid, body string) (status int, outSid string, msgs []map[string]json.RawMessage, hung bool) {
+	return gcPostH(h, sid, body, "")
+}
+
+// gcPostH: modernMethod != "": a sessionless POST under the 2026-07-28 protocol (Mcp-Protocol-Version and Mcp-Method
+// headers), as sent to a stateless handler.
+func gcPostH(h http.Handler, sid, body, modernMethod string) (status int, outSid string, msgs []map[string]json.RawMessage, hung bool) {
 	req := httptest.NewRequest(http.MethodPost, "http://verif.invalid/", strings.NewReader(body))
 	req.Header.Set("Content-Type", "application/json")
 	req.Header.Set("Accept", "application/json, text/event-stream")
 	if sid != "" {
 		req.Header.Set(sessionIDHeader, sid)
 		req.Header.Set(protocolVersionHeader, protocolVersion20250618)
+	}
+	if modernMethod != "" {
+		req.Header.Set(protocolVersionHeader, protocolVersion20260728)
+		req.Header.Set(methodHeader, modernMethod)
 	}
 	ctx, cancel := context.WithCancel(context.Background())
 	defer cancel()
@@ -191,6 +214,7 @@ func gcRunCase(t *testing.T, c gcCase, emit func(i int, obs string)) {
 			Logger: slog.New(slog.NewTextHandler(io.Discard, nil)),
 		})
 		handler := NewStreamableHTTPHandler(func(*http.Request) *Server { return server }, nil)
+		stateless := NewStreamableHTTPHandler(func(*http.Request) *Server { return server }, &StreamableHTTPOptions{Stateless: true})
 		var sess []*gcSess
 		nextID := 100
 		for i, op := range c.ops {
@@ -211,7 +235,11 @@ func gcRunCase(t *testing.T, c gcCase, emit func(i int, obs string)) {
 					emit(i, "ok")
 				}
 			case "copen":
-				if op.tr == "cli" {
+				if op.tr == "hnew" {
+					// the stateless handler: nothing to set up, every call is its own POST under the new protocol
+					sess = append(sess, &gcSess{tr: "hnew"})
+					emit(i, "ok")
+				} else if op.tr == "cli" {
 					ct, st := NewInMemoryTransports()
 					ss, err := server.Connect(ctx, st, nil)
 					if err != nil {
@@ -329,6 +357,13 @@ func gcRunCase(t *testing.T, c gcCase, emit func(i int, obs string)) {
 					default:
 						w = "none" // the call is still waiting for its response
 					}
+				} else if s.tr == "hnew" {
+					env = fmt.Sprintf(`{"jsonrpc":"2.0",%s"method":%s%s}`, idTok, mname, gcParamsModern(op.shape))
+					st, _, msgs, hung := gcPostH(stateless, "", env, op.name)
+					w, hs = gateWire1(msgs, want, op.hasID), fmt.Sprint(st)
+					if hung {
+						hs = "hung"
+					}
 				} else if s.tr == "mem" {
 					go s.peer.write(env)
 					synctest.Wait()
@@ -391,7 +426,7 @@ func gcRandom(id string, rng *rand.Rand) gcCase {
 			}
 			c.ops = append(c.ops, gcOp{kind: "creg", name: name})
 		case r < 34 || nsess == 0:
-			tr := []string{"mem", "mem", "http", "http", "cli"}[rng.Intn(5)]
+			tr := []string{"mem", "mem", "http", "http", "cli", "hnew", "hnew"}[rng.Intn(7)]
 			c.ops = append(c.ops, gcOp{kind: "copen", tr: tr})
 			trs = append(trs, tr)
 			nsess++
@@ -428,7 +463,7 @@ func gcRandom(id string, rng *rand.Rand) gcCase {
 // gcOrders: every order of {register, set the session up, handshake} before one call, per transport, id, shape.
 func gcOrders() []gcCase {
 	var out []gcCase
-	for _, tr := range []string{"mem", "http", "cli"} {
+	for _, tr := range []string{"mem", "http", "cli", "hnew"} {
 		for _, order := range [][]string{{"reg", "open", "hs"}, {"open", "reg", "hs"}, {"open", "hs", "reg"}, {"open", "hs"}, {"reg", "open"}, {"open", "reg"}} {
 			for _, hasID := range []bool{true, false} {
 				for _, shape := range gcShapes {
